@@ -65,5 +65,11 @@ META["C15"] = {"engine": "A-virtual-clock + V-value-pure", "design_ref": "DESIGN
                               "lock/re-lock/update/unlock histories in engine A, every reply's data and the stored value compared with the interpreter. The Redis-style text commands of the "
                               "statement are not yet covered by this check."),
                "level_note": _A_NOTE + " The interpreter is written from the protocol description; typed keys; multi-operation PIPELINEs are a listed known finding."}
+ENGINES["P-persistence"] = {"path": "harness/server/ep_persist_test.go", "props": ["C07"], "kind": "stateful PBT (rapid) + metamorphic restart: generated histories on instance 1, directory images recovered by fresh instances, in-package snapshots compared"}
+META["C07"] = {"engine": "P-persistence", "design_ref": "DESIGN.md §4 Engine P, §5 C07",
+               "technique": "stateful property-based testing (rapid) with a recovery oracle: snapshot of the original instance restricted to persisted live holds vs. snapshot of a fresh instance started on a copy of the directory (twice)",
+               "level_text": ("Exploration: generated histories, each followed by two real restarts on copies of the data directory; both directions compared (nothing missing, nothing resurrected), "
+                              "deadlines within the stated tolerance. The outage is produced by letting instance 1's clock lag the wall clock."),
+               "level_note": "Trusted: in-package snapshot; quiescence detection by polling the AOF channel queues; several genuine defects around re-locked/updated holds are listed as known findings and excluded by construction, which narrows the explored domain (stated in evidence)."}
 _NOT_BUILT = "check not built yet in this session (planned in DESIGN.md); not claimed rather than faked"
 NOT_APPLICABLE = {f"C{i:02d}": _NOT_BUILT for i in range(1, 21)}
